@@ -41,7 +41,6 @@ Definition row_model (kind : nat) (ps : list Qc) (nv : Qc) (r : list Qc) : list 
   | 7 => map (huber_code (p 0) (p 1) nv) r
   | 8 => map nonneg_code r
   | 9 => map (ball_code (p 0) nv) r
-  | 10 => map (ball_spec (p 0) nv) r
   | 11 => r
   | 12 => [sd_code (p 0) nv (x 1) (x 0)]
   | 13 => [ssd_code (p 0) (x 1) (x 0)]
@@ -61,7 +60,7 @@ Definition row_model (kind : nat) (ps : list Qc) (nv : Qc) (r : list Qc) : list 
 Definition row_norm_src (kind : nat) (r : list Qc) : option (list Qc) :=
   let x := nthq r in
   match kind with
-  | 1 | 2 | 5 | 6 | 7 | 9 | 10 => Some r
+  | 1 | 2 | 5 | 6 | 7 | 9 => Some r
   | 12 => let a := x 0 in let b := x 1 in Some [(a - b)%Qc]
   | 18 | 20 => Some [x 0]
   | 19 | 21 => Some [x 0; x 1]
@@ -101,7 +100,7 @@ Definition group := (Qc * list (list Qc * list Q))%type.
 Definition group_norm_ok (kind : nat) (g : group) : bool :=
   let '(nv, rows) := g in
   match kind with
-  | 5 | 6 | 7 | 9 | 10 | 12 =>     (* one norm for the whole group *)
+  | 5 | 6 | 7 | 9 | 12 =>     (* one norm for the whole group *)
       let src := flat_map (fun r => match row_norm_src kind (fst r) with Some l => l | None => [] end) rows in
       norm_ok nv (sumsq src)
   | _ =>                            (* one norm per row (the group has one row) or none *)
